@@ -45,18 +45,6 @@ Print Assumptions C02_constants_old_behaviour_refuted.
         the final value 2 is substituted into the earlier  y = k)
    (b)  k = 1; k = Bernoulli(1/2); x = 0; while true: x = x + k   (k folded to 1 AND kept) *)
 Definition zp (q : Qc) : Z * Z := (qnum q, Zpos (qden q)).
-Definition det (x : var) (e : expr) : gassign :=
-  {| ga_var := x; ga_cond := CTrue; ga_default := x; ga_rhs := RDet e |}.
-Definition qc (z : Z) : expr := EConst (mkq z 1).
-Definition wit_a : flatprog :=
-  {| fp_init := [det "k" (qc 1); det "y" (EVar "k"); det "k" (qc 2)];
-     fp_body := [det "y" (EAdd (EVar "y") (EVar "k"))] |}.
-Definition wit_b : flatprog :=
-  {| fp_init := [det "k" (qc 1);
-                 {| ga_var := "k"; ga_cond := CTrue; ga_default := "k"; ga_rhs := RDraw (DBern (EConst (mkq 1 2))) |};
-                 det "x" (qc 0)];
-     fp_body := [det "x" (EAdd (EVar "x") (EVar "k"))] |}.
-
 Example constants_ok_false_a : constants_ok wit_a = false.
 Proof. vm_compute. reflexivity. Qed.
 Example constants_ok_false_b : constants_ok wit_b = false.
@@ -76,13 +64,7 @@ Proof. vm_compute. reflexivity. Qed.
 Theorem C02_constants_without_ok_refuted :
   exists (fp : flatprog) (n : nat) (s0 : state) (f : state -> Qc),
     ignores (folded fp) f /\ E (frun no_law (constants fp) n s0) f <> E (frun no_law fp n s0) f.
-Proof.
-  exists wit_a, 0%nat, st0, (fun s => s "y"). split.
-  - intros s s' H. apply H. vm_compute. reflexivity.
-  - assert (H1 : E (frun no_law (constants wit_a) 0 st0) (fun s => s "y") = mkq 2 1) by (vm_compute; reflexivity).
-    assert (H2 : E (frun no_law wit_a 0 st0) (fun s => s "y") = mkq 1 1) by (vm_compute; reflexivity).
-    rewrite H1, H2. intros H. discriminate H.
-Qed.
+Proof. exact constants_without_ok_refuted. Qed.
 Print Assumptions C02_constants_without_ok_refuted.
 
 (* ---- non-vacuity: the hypothesis holds on a program where the pass does all it can do ----
